@@ -14,7 +14,8 @@ COORDS = 'tracklib.core.obs_coords'
 DIRS = [(5, 0), (0, 5), (3, 4), (-4, 3), (1, 1), (-2, -7), (0, -3), (0.001, 2), (-6, 0), (7, -1)]
 POLYS = [[(5, 0), (3, 4)], [(3, 4), (-4, 3)], [(5, 0), (0, 0), (3, 4)], [(1, 1), (5, 0), (-2, -7)], [(3, 4), (3, 4)], [(-6, 0), (3, 4), (6, 0)],
          [(5, 0), (0, 5)], [(3, 4), (0, -3), (5, 0)],
-         [(5, 0), (2, -2), (3, 4)], [(-3, 3), (5, 0)], [(1, -1)]]      # legs with dx + dy == 0 (south-east / north-west), alone and inside a polyline
+         [(5, 0), (2, -2), (3, 4)], [(-3, 3), (5, 0)], [(1, -1)],
+         [(12, 0), (1, 1), (-12, 0)]]     # a hairpin: two long legs 1 apart (a later leg spans the query point while both its ends are far)      # legs with dx + dy == 0 (south-east / north-west), alone and inside a polyline
 TOL = 1e-9
 
 
@@ -51,7 +52,7 @@ class C20(Check):
 
     def bounds(self, tier):
         return dict(segments='%d catalogue directions x {free query point, query point on the segment, query point at either end}' % len(DIRS),
-                    polylines='%d catalogue polylines of 2-3 legs (quick: the 5 cheapest) (one with a zero-length leg, one with repeated direction, two with a vertical leg, three with a leg of direction (1,-1)) through proj_polyligne and mapOnTrack' % len(POLYS))
+                    polylines='%d catalogue polylines of 2-3 legs (quick: the 5 cheapest) (one with a zero-length leg, one with repeated direction, two with a vertical leg, three with a leg of direction (1,-1), one hairpin) through proj_polyligne and mapOnTrack' % len(POLYS))
 
     def jobs(self, tier, seed):
         js = []
@@ -134,7 +135,9 @@ class C20(Check):
         cross = (xz - x1) * ddy - (yz - y1) * ddx
         dot = (xz - x1) * ddx + (yz - y1) * ddy
         t = qtol(1 + L2c)
-        if not ctx.prove(z3.And(cross <= t, cross >= -t, dot >= -t, dot <= ddx * ddx + ddy * ddy + t),
+        # a zero-length leg carries only its vertex: cross and dot vanish identically there, so the point is also pinned to the disc of the leg
+        disc = (xz - x1) * (xz - x1) + (yz - y1) * (yz - y1) <= L2c + t
+        if not ctx.prove(z3.And(cross <= t, cross >= -t, dot >= -t, dot <= ddx * ddx + ddy * ddy + t, disc),
                          'the returned point lies on the segment whose index is returned', classes=cls):
             return
         dist2 = (P[0] - xz) * (P[0] - xz) + (P[1] - yz) * (P[1] - yz)
